@@ -47,6 +47,7 @@ type Obs struct {
 	Nstmt    int     `json:"nstmt,omitempty"`
 	RunRes   string  `json:"run,omitempty"`
 	Rpanic   string  `json:"rpanic,omitempty"`
+	Rline    int     `json:"rline,omitempty"`
 }
 
 var consts = map[string]token.TokenType{
@@ -134,6 +135,7 @@ type parseRes struct {
 	nstmt  int
 	run    string
 	rpanic string
+	rline  int
 }
 
 func parseAndRun(src, mode string, run bool) (res parseRes) {
@@ -185,12 +187,24 @@ func parseAndRun(src, mode string, run bool) (res parseRes) {
 	old := data.WriteOutput
 	data.WriteOutput = func(string) {}
 	defer func() { data.WriteOutput = old }()
-	vm.SetThrowControl(func(data.Control) {})
+	var thrown data.Control
+	vm.SetThrowControl(func(c data.Control) {
+		if thrown == nil {
+			thrown = c
+		}
+	})
 	ctx := vm.CreateContext(p.GetVariables())
 	_, ctl := prog.GetValue(ctx)
+	if ctl == nil {
+		ctl = thrown
+	}
 	if ctl != nil {
-		if _, ok := ctl.(*data.ThrowValue); ok {
+		if tv, ok := ctl.(*data.ThrowValue); ok {
 			res.run = "throw"
+			if tv.Error != nil && tv.Error.From != nil {
+				l, _ := tv.Error.From.GetStartPosition()
+				res.rline = l + 1
+			}
 		} else {
 			res.run = "control"
 		}
@@ -218,7 +232,7 @@ func observe(c Case) Obs {
 	go func() { ch <- parseAndRun(src, c.Mode, c.Run) }()
 	select {
 	case r := <-ch:
-		o.Parse, o.Perr, o.Pline, o.Pcol, o.Ppanic, o.Nstmt, o.RunRes, o.Rpanic = r.state, r.perr, r.pline, r.pcol, r.ppanic, r.nstmt, r.run, r.rpanic
+		o.Parse, o.Perr, o.Pline, o.Pcol, o.Ppanic, o.Nstmt, o.RunRes, o.Rpanic, o.Rline = r.state, r.perr, r.pline, r.pcol, r.ppanic, r.nstmt, r.run, r.rpanic, r.rline
 	case <-time.After(budget):
 		o.Parse = "timeout"
 	}
